@@ -675,6 +675,14 @@ impl VisitMut for Rw {
                     let segs: Vec<&str> = full.split("::").collect();
                     let n = segs.len();
                     let parent = if n >= 2 { segs[n - 2] } else { "" };
+                    // std::os::unix::fs::symlink(original, link) -> world.fs_symlink(original, link) (R1)
+                    if (self.o.world || self.o.worldself) && full == "std::os::unix::fs::symlink" {
+                        self.bump("R1");
+                        let args = &c.args;
+                        let w = self.world_expr();
+                        *e = parse_quote!(#w.fs_symlink(#args));
+                        return;
+                    }
                     if (self.o.world || self.o.worldself) && (parent == "fs" || parent == "env") && (n == 2 || (n == 3 && segs[0] == "std")) {
                         self.bump("R1");
                         let m = format_ident!("{}_{}", parent, last);
